@@ -19,6 +19,7 @@ from typing import Any, Dict, List
 from ..core import Ctx, Report, Violation
 from .. import c03_core as K
 from .. import c04_enum as E
+from .. import c04_ctx as X
 
 PROPERTY = "C04"
 SALT = 0xC04
@@ -70,6 +71,14 @@ ROUND4_ASSUMPTIONS = [
 ]
 
 
+ROUND5_RULE = (" Round 5 dimensions (c04_ctx): 'tail' -- every (prefix, opcode) pair (quick x2, thorough x8) followed by a generated byte string the decoder does NOT accept (rejection class drawn uniformly from those the decoder exhibits -- undefined mode/register, operand-decoder assertion, unfusable PRE --, head uniform inside the class, with/without PRE bytes in front; 1/8 plain generated bytes), labels tail:*; non-trivial = judged (tail-judged:*). 'entry' -- every (prefix, opcode) pair (quick x2, thorough x8) through CPUStepper(default_memory_value=f).step / CPU.step_snapshot(..., default_memory_value=f) with f in {00, FF, boundary byte, any} and a sparse image (code window, BP/PX/PY, pointer cells, planted operands listed; the other bytes the instruction touches listed for none / all / half of them, holding 00 / f / boundary byte / generated byte), A/BA = 00 or f in 3/8; observation = result registers + result image read with image.get(addr, f); labels entry:*, fill:*, image:*, store:<00|fill|other>@<listed|unlisted>; non-trivial = entry-nt:* (documented store of 00 resp. of f to a byte not listed in the image).")
+
+ROUND5_ASSUMPTIONS = [
+    "the bytes behind the instruction under test may be ANY bytes, including encodings the decoder rejects: they are never executed and the documented meaning of an encoding does not depend on them (fusion(): 'Bytes *after* instr1 that fail to decode must not affect instr1'); the case carries the length of the encoding under test, so a decoder that rejects it only in that context keeps the case inside the domain",
+    "CPUStepper.step / CPU.step_snapshot are entry points of the property (properties.jsonl observe_at: 'Registers and memory image after Emulator.execute_instruction / CPUStepper.step'; stepper.py: 'executes a single instruction using the existing Emulator implementation, and returns an updated snapshot together with the side effects'): memory before = image.get(addr, default_memory_value), memory after = result.memory_image.get(addr, default_memory_value) -- the stepper's own reading rule (_SnapshotMemory._read_byte), also what a chained step sees; locations = result.memory_writes plus every address whose image value changed; reads and the power state are not exposed by these entry points and are not compared there; verdicts that vanish when the same registers/memory go through Emulator.execute_instruction are tagged [depends on the entry point]",
+]
+
+
 def run(ctx: Ctx) -> Report:
     ns = 64
     den = ctx.pick(16, 1)
@@ -93,6 +102,11 @@ def run(ctx: Ctx) -> Report:
     tasks += [("explore", (PROPERTY, i, fs, ctx.seed, ctx.pick(12, 32), 24, SALT, "overptr")) for i in range(fs)]
     ps = 16
     tasks += [("explore", (PROPERTY, i, ps, ctx.seed, ctx.pick(3, 6), 24, SALT, "pagecross")) for i in range(ps)]
+    # round 5: generated bytes behind the instruction (the decoder's rejection classes included), every (prefix, opcode)
+    ts = 16
+    tasks += [("tail", (PROPERTY, i, ts, ctx.seed, ctx.pick(2, 8), 24, SALT)) for i in range(ts)]
+    # round 5: the snapshot entry points (CPUStepper.step / CPU.step_snapshot) over sparse images with a generated fill
+    tasks += [("entry", (PROPERTY, i, ts, ctx.seed, ctx.pick(2, 8), 24, SALT)) for i in range(ts)]
     K.GN.warm()
     for i in range(max(len(tasks_a), len(tasks_b))):
         if i < len(tasks_a):
@@ -100,8 +114,8 @@ def run(ctx: Ctx) -> Report:
         if i < len(tasks_b):
             tasks.append(tasks_b[i])
     rep = ctx.merge_reports(ctx.pmap(_dispatch, tasks))
-    rep.rule = RULE + ROUND4_RULE
-    rep.assumptions = list(ASSUMPTIONS) + list(ROUND4_ASSUMPTIONS)
+    rep.rule = RULE + ROUND4_RULE + ROUND5_RULE
+    rep.assumptions = list(ASSUMPTIONS) + list(ROUND4_ASSUMPTIONS) + list(ROUND5_ASSUMPTIONS)
     rep.exhaustive = False              # only part (a) is a finite space; parts (b),(b') sample the state dimension
     rep.extra["part_a_operand_triples_complete"] = not ctx.quick
     return rep
@@ -113,6 +127,10 @@ def _dispatch(task: Any) -> Report:
         return E.enum_shard(t)
     if kind == "grid":
         return E.grid_shard(t)
+    if kind == "tail":
+        return X.tail_shard(t)
+    if kind == "entry":
+        return X.entry_shard(t)
     return K.explore_shard(t)
 
 
